@@ -178,7 +178,8 @@ where
                 c.swap(0, 1);
                 stm.push(("attrs_swapped", c));
             }
-            if n >= 2 {
+            // (a trailing attribute equal to 0 contributes a_i^0 = 1: the shorter vector is the same statement)
+            if n >= 2 && msgs[n - 1].value != 0 {
                 stm.push(("attr_removed", msgs[..n - 1].to_vec()));
             }
             for (name, m2) in stm {
@@ -205,8 +206,29 @@ where
                 let f: Signature<CL03<C>> = make_sig(&e2, &s2, &v2);
                 ev.push(json!({"op": "CLVerify", "suite": suite, "key": ki, "n": n, "mode": "multi", "alpha": vec![0; n], "beta": 0, "edit": name, "stmt": "same", "res": b3(guard(|| f.verify_multiattr(&ks.pk, &ks.bases, &msgs)))}));
             }
+            // signatures assembled from public data only: e = 1 (or another out-of-range exponent) makes the
+            // verification equation solvable for v; (-e, s, v^-1) mauls a valid signature
+            {
+                let mut rhs = Integer::from(1);
+                for i in 0..n {
+                    rhs = (rhs * pow_signed_big(&ks.bases.0[i], &msgs[i].value, &ks.pk.N)).modulo(&ks.pk.N);
+                }
+                let s_f = rng.bits(C::ls);
+                rhs = (rhs * pow_signed_big(&ks.pk.b, &s_f, &ks.pk.N) * &ks.pk.c).modulo(&ks.pk.N);
+                let f1: Signature<CL03<C>> = make_sig(&Integer::from(1), &s_f, &rhs);
+                ev.push(json!({"op": "CLVerify", "suite": suite, "key": ki, "n": n, "mode": "multi", "alpha": vec![0; n], "beta": 0, "edit": "forged:e=1", "stmt": "same", "res": b3(guard(|| f1.verify_multiattr(&ks.pk, &ks.bases, &msgs)))}));
+                if n == 1 {
+                    ev.push(json!({"op": "CLVerify", "suite": suite, "key": ki, "n": 1, "mode": "single", "alpha": [0], "beta": 0, "edit": "forged:e=1", "stmt": "same", "res": b3(guard(|| f1.verify(&ks.pk, &ks.bases, &msgs[0])))}));
+                }
+                let vinv = v.clone().invert(&ks.pk.N).unwrap();
+                let f2: Signature<CL03<C>> = make_sig(&(-e.clone()), &sv, &vinv);
+                ev.push(json!({"op": "CLVerify", "suite": suite, "key": ki, "n": n, "mode": "multi", "alpha": vec![0; n], "beta": 0, "edit": "mauled:-e", "stmt": "same", "res": b3(guard(|| f2.verify_multiattr(&ks.pk, &ks.bases, &msgs)))}));
+            }
             // other bases / other key
-            ev.push(json!({"op": "CLVerify", "suite": suite, "key": ki, "n": n, "mode": "multi", "alpha": vec![0; n], "beta": 0, "edit": "none", "stmt": "other_bases", "res": b3(guard(|| sig.verify_multiattr(&ks.pk, &other.bases, &msgs)))}));
+            // (attributes equal to 0 make their base irrelevant: a^0 = 1)
+            if msgs.iter().any(|m| m.value != 0) {
+                ev.push(json!({"op": "CLVerify", "suite": suite, "key": ki, "n": n, "mode": "multi", "alpha": vec![0; n], "beta": 0, "edit": "none", "stmt": "other_bases", "res": b3(guard(|| sig.verify_multiattr(&ks.pk, &other.bases, &msgs)))}));
+            }
             ev.push(json!({"op": "CLVerify", "suite": suite, "key": ki, "n": n, "mode": "multi", "alpha": vec![0; n], "beta": 0, "edit": "none", "stmt": "other_key", "res": b3(guard(|| sig.verify_multiattr(&other.pk, &ks.bases, &msgs)))}));
             if !thorough && n >= 3 {
                 break;
@@ -299,6 +321,12 @@ where
                         let refused = !matches!(r, Ok(true));
                         ev.push(json!({"op": "CLIssue", "suite": suite, "key": ki, "n": n, "U": u, "trusted": trusted, "mismatch": name, "verify_proof": b3(r), "signed": !refused, "verifies": false}));
                     }
+                    if !trusted {
+                        // the issuer demands a trusted commitment but the holder's proof was made without one
+                        let r = guard(|| zk.verify_proof(commitment.cl03Commitment(), Some(ct2.cl03Commitment()), &ks.pk, &ks.bases, Some(&ks.cpk_own), &u));
+                        let refused = !matches!(r, Ok(true));
+                        ev.push(json!({"op": "CLIssue", "suite": suite, "key": ki, "n": n, "U": u, "trusted": trusted, "mismatch": "proof_without_trusted_part", "verify_proof": b3(r), "signed": !refused, "verifies": false}));
+                    }
                     // blind_sign itself refuses a mismatching proof (observed as the documented panic)
                     let r = guard(|| BlindSignature::<CL03<C>>::blind_sign(&ks.pk, &ks.sk, &ks.bases, &zk, Some(&revealed), c_other.cl03Commitment(), ct, cpk, &u, Some(&revealed_idx)));
                     ev.push(json!({"op": "CLIssue", "suite": suite, "key": ki, "n": n, "U": u, "trusted": trusted, "mismatch": "blind_sign_other_commitment", "verify_proof": "false", "signed": r.is_ok(), "verifies": false}));
@@ -368,7 +396,9 @@ where
                 }
                 fam.push(("other_pk", guard(|| proof.proof_verify(&cpk, &other.pk, &bases_n, &revealed, &u, n))));
                 let ob = Bases(other.bases.0[..n].to_vec());
-                fam.push(("other_bases", guard(|| proof.proof_verify(&cpk, &ks.pk, &ob, &revealed, &u, n))));
+                if msgs.iter().any(|m| m.value != 0) {
+                    fam.push(("other_bases", guard(|| proof.proof_verify(&cpk, &ks.pk, &ob, &revealed, &u, n))));
+                }
                 let ocpk = CL03CommitmentPublicKey::generate::<C>(Some(ks.pk.N.clone()), Some(n));
                 fam.push(("other_commitment_key", guard(|| proof.proof_verify(&ocpk, &ks.pk, &bases_n, &revealed, &u, n))));
                 if u.len() < n {
@@ -379,9 +409,16 @@ where
                         fam.push(("other_U", guard(|| proof.proof_verify(&cpk, &ks.pk, &bases_n, &rv2, &u2, n))));
                     }
                 }
-                if n >= 2 && !revealed.is_empty() {
+                if n >= 2 && !revealed.is_empty() && revealed[revealed.len() - 1].value != 0 && !u.contains(&(n - 1)) {
                     fam.push(("n_minus_1", guard(|| proof.proof_verify(&cpk, &ks.pk, &bases_n, &revealed[..revealed.len() - 1], &u, n - 1))));
                 }
+                if n < 5 {
+                    // one more attribute than signed, with spare bases available on both sides
+                    let cpk_full = CL03CommitmentPublicKey { N: ks.cpk_issuer.N.clone(), h: ks.cpk_issuer.h.clone(), g_bases: ks.cpk_issuer.g_bases.clone() };
+                    fam.push(("n_plus_1_spare_bases", guard(|| proof.proof_verify(&cpk_full, &ks.pk, &ks.bases, &revealed, &u, n + 1))));
+                }
+                let cpk_n2 = CL03CommitmentPublicKey { N: cpk.N.clone() + 2u32, h: cpk.h.clone(), g_bases: cpk.g_bases.clone() };
+                fam.push(("commitment_key_modulus_changed", guard(|| proof.proof_verify(&cpk_n2, &ks.pk, &bases_n, &revealed, &u, n))));
                 for (name, r) in fam {
                     ev.push(json!({"op": "CLPoK", "suite": suite, "key": ki, "n": n, "U": u, "mismatch": name, "res": b3(r)}));
                 }
@@ -483,6 +520,28 @@ where
                         let res = guard(|| transplant::<C>(&pj, &e2, g, n, &a, &b).verify::<C::HashAlg>(g, h, n, &a, &b));
                         ev.push(json!({"op": "CLRange", "suite": suite, "key": ki, "bases": bname, "width": wname, "x": xname, "case": format!("transplant:{tname}"), "res": b3(res)}));
                     }
+                    // one-sided transplants: one half genuine for the target commitment (made against a shifted
+                    // interval with the same T and tolerance), the other half carried over from the honest proof
+                    if *wname == "2^64" || *wname == "2^8" {
+                        for (side, tx, lo, hi) in [("upper", b.clone() + 1, a.clone(), b.clone() + 1), ("lower", a.clone() - 1, a.clone() - 1, b.clone())] {
+                            let r2 = rng.bits(C::ln);
+                            let e2 = (pow_signed_big(g, &tx, n) * pow_signed_big(h, &r2, n)).modulo(n);
+                            let com2 = make_commitment(&e2, &r2);
+                            let res = guard(|| {
+                                let genuine = Boudot2000RangeProof::prove::<C::HashAlg>(&tx, &com2, g, h, n, &lo, &hi);
+                                let gj = serde_json::to_value(&genuine).unwrap();
+                                let mut p = serde_json::to_value(transplant::<C>(&pj, &e2, g, n, &a, &b)).unwrap();
+                                // keep the genuine half for the in-range side
+                                let keep = if side == "upper" { ["E_a_1", "E_a_2", "proof_of_square_a", "proof_large_i_a"] } else { ["E_b_1", "E_b_2", "proof_of_square_b", "proof_large_i_b"] };
+                                for k in keep {
+                                    p["proof_of_tolerance"][k] = gj["proof_of_tolerance"][k].clone();
+                                }
+                                let pp: Boudot2000RangeProof = serde_json::from_value(p).unwrap();
+                                pp.verify::<C::HashAlg>(g, h, n, &a, &b)
+                            });
+                            ev.push(json!({"op": "CLRange", "suite": suite, "key": ki, "bases": bname, "width": wname, "x": xname, "case": format!("transplant:onesided_{side}"), "res": b3(res)}));
+                        }
+                    }
                     let rnd = rng.below_int(n).pow_mod(&Integer::from(2), n).unwrap();
                     let res = guard(|| transplant::<C>(&pj, &rnd, g, n, &a, &b).verify::<C::HashAlg>(g, h, n, &a, &b));
                     ev.push(json!({"op": "CLRange", "suite": suite, "key": ki, "bases": bname, "width": wname, "x": xname, "case": "transplant:random_element", "res": b3(res)}));
@@ -583,7 +642,15 @@ where
                 let confirmed = dictionary(&zj, &cand, &ks.bases.0[u[0]], &ks.pk.b, &ks.pk.N);
                 ev.push(json!({"op": "CLDictionary", "suite": suite, "proof": "zkpok", "n": n, "U": u, "confirmed": confirmed}));
                 // responses: challenge recomputed as the verifier does
-                mask_events::<C>("zkpok", suite, n, &u, &zj, &secrets, ks, ev);
+                // challenge of the multi-secret proof: H(a_i (i in U) || b || C || t)
+                let t_ms: Integer = serde_json::from_value(zj["CL03"]["proof_commited_msgs"]["t"].clone()).unwrap();
+                let mut s_in = String::new();
+                for &i in &u {
+                    s_in += &ks.bases.0[i].to_string();
+                }
+                s_in = s_in + &ks.pk.b.to_string() + &commitment.value().to_string() + &t_ms.to_string();
+                let c_ms = Integer::from_digits(<C::HashAlg as Digest>::digest(s_in).as_slice(), rug::integer::Order::MsfBe);
+                mask_events::<C>("zkpok", suite, n, &u, &zj, &secrets, ks, &[("proof_commited_msgs:challenge".to_string(), c_ms)], ev);
                 // ---- signature proof
                 verif_hooks::start_recording();
                 let proof = PoKSignature::<CL03<C>>::proof_gen(sig.cl03Signature(), &cpk, &ks.pk, &bases_n, &msgs, &u);
@@ -600,9 +667,36 @@ where
                 secrets.push(("v".into(), v.clone()));
                 let pairs: Vec<(&str, Integer, Integer)> = (0..n).map(|i| ("g_i,h", cpk.g_bases[i].clone(), cpk.h.clone())).collect();
                 leak_events::<C>("spok", suite, ki, n, &u, &pj, &secrets, &pairs, &cpk.N, Some((&v, &cpk.g_bases[0])), ev);
-                mask_events::<C>("spok", suite, n, &u, &pj, &secrets, ks, ev);
+                mask_events::<C>("spok", suite, n, &u, &pj, &secrets, ks, &[], ev);
             }
         }
+    }
+}
+
+/// a wide credential: 64 + attributes with single hidden positions around the 64 boundary
+fn drv_leak_wide<C: CLCiphersuite>(keys: &[KeySet], seed: u64, ev: &mut Vec<Value>)
+where
+    C::HashAlg: Digest,
+{
+    let mut rng = Rng::new(seed ^ 0x64);
+    let suite = C::SECPARAM * 2;
+    let ks = &keys[0];
+    let n = 66usize;
+    let bases = Bases::generate(&ks.pk, n);
+    let cpk = CL03CommitmentPublicKey::generate::<C>(Some(ks.pk.N.clone()), Some(n));
+    let msgs: Vec<CL03Message> = (0..n).map(|_| CL03Message::new(rng.bits(C::lm))).collect();
+    let sig = Signature::<CL03<C>>::sign_multiattr(&ks.pk, &ks.sk, &bases, &msgs);
+    let (e, _s, v) = sig_parts(sig.cl03Signature());
+    for u in [vec![63usize], vec![64], vec![0, 65], vec![31, 32, 63]] {
+        let revealed: Vec<CL03Message> = (0..n).filter(|i| !u.contains(i)).map(|i| msgs[i].clone()).collect();
+        let proof = PoKSignature::<CL03<C>>::proof_gen(sig.cl03Signature(), &cpk, &ks.pk, &bases, &msgs, &u);
+        let ok = guard(|| proof.proof_verify(&cpk, &ks.pk, &bases, &revealed, &u, n));
+        ev.push(json!({"op": "CLPoK", "suite": suite, "key": 0, "n": n, "U": u, "mismatch": "none", "res": b3(ok)}));
+        let pj = serde_json::to_value(&proof).unwrap();
+        let mut secrets: Vec<(String, Integer)> = u.iter().map(|&i| (format!("m{i}"), msgs[i].value.clone())).collect();
+        secrets.push(("e".into(), e.clone()));
+        secrets.push(("v".into(), v.clone()));
+        mask_events::<C>("spok", suite, n, &u, &pj, &secrets, ks, &[], ev);
     }
 }
 
@@ -659,13 +753,13 @@ fn dictionary(pj: &Value, cand: &[Integer], g: &Integer, h: &Integer, n: &Intege
 
 /// C19: | floor(s / c) - x | and | floor(s / s') - x | as bit lengths, for every response leaf s,
 /// every recomputable challenge c and every secret x
-fn mask_events<C: CLCiphersuite>(pname: &str, suite: u32, n: usize, u: &[usize], pj: &Value, secrets: &[(String, Integer)], ks: &KeySet, ev: &mut Vec<Value>)
+fn mask_events<C: CLCiphersuite>(pname: &str, suite: u32, n: usize, u: &[usize], pj: &Value, secrets: &[(String, Integer)], ks: &KeySet, extra: &[(String, Integer)], ev: &mut Vec<Value>)
 where
     C::HashAlg: Digest,
 {
     let leaves = int_leaves(pj);
     // challenges recomputable from public data
-    let mut challenges: Vec<(String, Integer)> = vec![];
+    let mut challenges: Vec<(String, Integer)> = extra.to_vec();
     for (p, v) in &leaves {
         if p.ends_with("/challenge") {
             challenges.push((norm_path(p), v.clone()));
@@ -687,9 +781,12 @@ where
             }
         }
     }
-    let mut min_sc: (u32, String, String) = (u32::MAX, String::new(), String::new());
-    let mut min_ss: (u32, String, String) = (u32::MAX, String::new(), String::new());
     let resp: Vec<&(String, Integer)> = leaves.iter().filter(|(p, _)| is_response(p)).collect();
+    // per response path: the smallest | floor(s / c) - x | and | floor(s / s') - x | over all challenges / secrets
+    let mut per_sc: std::collections::BTreeMap<String, (u32, String)> = Default::default();
+    let mut per_ss: std::collections::BTreeMap<String, (u32, String)> = Default::default();
+    let mut unblinded: Vec<Value> = vec![];
+    let mut diffs: Vec<Value> = vec![];
     for (p, s) in &resp {
         for (_, c) in &challenges {
             if *c == 0 {
@@ -698,8 +795,13 @@ where
             let q = s.clone().div_rem_floor(c.clone()).0;
             for (sn, x) in secrets {
                 let d: u32 = (q.clone() - x).abs().significant_bits();
-                if (d as u32) < min_sc.0 {
-                    min_sc = (d, norm_path(p), sn.clone());
+                let e = per_sc.entry(norm_path(p)).or_insert((u32::MAX, String::new()));
+                if d < e.0 {
+                    *e = (d, sn.clone());
+                }
+                // a response that is a known function of the secret alone: s = x, x * c or x * (1 + c)
+                if *s == *x || *s == (x.clone() * c) || *s == (x.clone() * (c.clone() + 1u32)) {
+                    unblinded.push(json!({"path": norm_path(p), "secret": sn}));
                 }
             }
         }
@@ -713,14 +815,47 @@ where
                     continue; // tiny attribute values (0, 1) equal small quotients by coincidence
                 }
                 let d: u32 = (q.clone() - x).abs().significant_bits();
-                if (d as u32) < min_ss.0 {
-                    min_ss = (d, format!("{} / {}", norm_path(p), norm_path(p2)), sn.clone());
+                let key = format!("{} / {}", norm_path(p), norm_path(p2));
+                let e = per_ss.entry(key).or_insert((u32::MAX, String::new()));
+                if d < e.0 {
+                    *e = (d, sn.clone());
+                }
+            }
+            // two responses sharing their blinding: (s - s') = c * (x - x')
+            for (_, c) in &challenges {
+                if *c == 0 {
+                    continue;
+                }
+                let diff = (*s).clone() - (*s2).clone();
+                if diff != 0 && diff.is_divisible(c) {
+                    let q = diff / c;
+                    for (sn, x) in secrets {
+                        for (sn2, x2) in secrets {
+                            if sn != sn2 && q == (x.clone() - x2) {
+                                diffs.push(json!({"path": norm_path(p), "path2": norm_path(p2), "secrets": [sn, sn2]}));
+                            }
+                        }
+                    }
                 }
             }
         }
     }
-    ev.push(json!({"op": "CLMask", "suite": suite, "proof": pname, "n": n, "U": u, "kind": "s/c", "bits": min_sc.0.min(100000), "path": min_sc.1, "secret": min_sc.2, "responses": resp.len(), "challenges": challenges.len()}));
-    ev.push(json!({"op": "CLMask", "suite": suite, "proof": pname, "n": n, "U": u, "kind": "s/s'", "bits": min_ss.0.min(100000), "path": min_ss.1, "secret": min_ss.2, "responses": resp.len(), "challenges": challenges.len()}));
+    for (path, (bits, sn)) in &per_sc {
+        ev.push(json!({"op": "CLMask", "suite": suite, "proof": pname, "n": n, "U": u, "kind": "s/c", "bits": (*bits).min(100000), "path": path, "secret": sn}));
+    }
+    // quotients of two responses: only the ones that come close to a secret are logged one by one
+    let mut worst = (u32::MAX, String::new(), String::new());
+    for (path, (bits, sn)) in &per_ss {
+        if *bits < 64 {
+            ev.push(json!({"op": "CLMask", "suite": suite, "proof": pname, "n": n, "U": u, "kind": "s/s'", "bits": *bits, "path": path, "secret": sn}));
+        }
+        if *bits < worst.0 {
+            worst = (*bits, path.clone(), sn.clone());
+        }
+    }
+    ev.push(json!({"op": "CLMaskSummary", "suite": suite, "proof": pname, "n": n, "U": u, "responses": resp.len(), "challenges": challenges.len(), "pairs": per_ss.len(), "min_pair_bits": worst.0.min(100000), "min_pair": worst.1}));
+    ev.push(json!({"op": "CLUnblinded", "suite": suite, "proof": pname, "n": n, "U": u, "hits": unblinded}));
+    ev.push(json!({"op": "CLSharedBlinding", "suite": suite, "proof": pname, "n": n, "U": u, "hits": diffs}));
 }
 
 fn is_response(p: &str) -> bool {
@@ -729,6 +864,41 @@ fn is_response(p: &str) -> bool {
     matches!(last, "s1" | "s2" | "s_1" | "s_2" | "s_3" | "s_4" | "s_6" | "s_7" | "s_8" | "s_9" | "d_1" | "d_2")
         || ((parent == "s1" || parent == "s_5" || parent == "d") && last.parse::<usize>().is_ok())
         || (last == "d" && !p.contains("range") && !p.contains("proof_ss"))
+}
+
+/// the production draws of two proofs made from the same inputs on two fresh threads (and twice on one)
+fn drv_fresh<C: CLCiphersuite>(keys: &[KeySet], seed: u64, ev: &mut Vec<Value>)
+where
+    C::HashAlg: Digest,
+{
+    let mut rng = Rng::new(seed ^ 0x19);
+    let suite = C::SECPARAM * 2;
+    let ks = &keys[0];
+    let msgs = attrs::<C>(&mut rng, 2);
+    let sig = Signature::<CL03<C>>::sign_multiattr(&ks.pk, &ks.sk, &ks.bases, &msgs);
+    let bases_n = Bases(ks.bases.0[..2].to_vec());
+    let cpk = CL03CommitmentPublicKey { N: ks.cpk_issuer.N.clone(), h: ks.cpk_issuer.h.clone(), g_bases: ks.cpk_issuer.g_bases[..2].to_vec() };
+    let s_inner = sig.cl03Signature().clone();
+    drop(sig);
+    let one = || -> Vec<String> {
+        verif_hooks::start_recording();
+        let _ = PoKSignature::<CL03<C>>::proof_gen(&s_inner, &cpk, &ks.pk, &bases_n, &msgs, &[1]);
+        let commitment = Commitment::<CL03<C>>::commit_with_pk(&msgs, &ks.pk, &ks.bases, Some(&[0]));
+        let _ = ZKPoK::<CL03<C>>::generate_proof(&msgs, commitment.cl03Commitment(), None, &ks.pk, &ks.bases, None, &[0]);
+        let d = verif_hooks::take_draws();
+        verif_hooks::stop_recording();
+        d.iter().map(|x| hex::encode(&<Sha256 as Digest>::digest(&x.value)[..10])).collect()
+    };
+    let mut runs: Vec<Vec<String>> = vec![];
+    std::thread::scope(|sc| {
+        let hs: Vec<_> = (0..3).map(|_| sc.spawn(|| { let mut v = one(); v.extend(one()); v })).collect();
+        for h in hs {
+            runs.push(h.join().unwrap());
+        }
+    });
+    let all: Vec<&String> = runs.iter().flatten().collect();
+    let set: std::collections::BTreeSet<&String> = all.iter().copied().collect();
+    ev.push(json!({"op": "CLFresh", "suite": suite, "threads": runs.len(), "draws": all.len(), "distinct": set.len()}));
 }
 
 // ---------------------------------------------------------------------------- C18
@@ -820,7 +990,11 @@ fn main() {
             "blind" => drv_blind::<C>(&keys, seed, thorough, stride, ev),
             "pok" => drv_pok::<C>(&keys, seed, thorough, stride, ev),
             "boudot" => drv_boudot::<C>(&keys, seed, thorough, ev),
-            "leak" => drv_leak::<C>(&keys, seed, thorough, ev),
+            "leak" => {
+                drv_leak::<C>(&keys, seed, thorough, ev);
+                drv_leak_wide::<C>(&keys, seed, ev);
+                drv_fresh::<C>(&keys, seed, ev);
+            }
             "keys" => drv_keys::<C>(&keys, seed, ev),
             _ => { eprintln!("unknown driver {cmd}"); std::process::exit(2); }
         }
